@@ -41,6 +41,10 @@ class Kind(object):
             return _v(s=cur)
         if self.kind == "num":
             return _v(n=cur)
+        if self.kind == "num2":                   # a current value that is no integer: the specification counts in halves
+            return _v(n=int(round(cur * 2)))
+        if self.kind == "numset":                 # NumberValueObject over a container of numbers (operator contains)
+            return _v(st=list(cur))
         if self.kind == "bool":
             return _v(b=cur)
         return _v(st=cur)
@@ -55,7 +59,7 @@ class Kind(object):
         if w == "callable":                       # a plain callable as provider value: evaluated lazily
             return lambda: cell[0]
         value = (lambda: cell[0]) if w.startswith("lazy") else cell[0]
-        if self.kind == "num":
+        if self.kind in ("num", "num2", "numset"):
             return NumberValueObject(value, ops[self.op])
         if self.kind == "bool":
             return BoolValueObject(value, ops[self.op])
@@ -74,6 +78,9 @@ NUM_LE = Kind("num_le", "num", "le", ["10", "20"], [10, 15, 20], "lazy")
 NUM_GE_BAD = Kind("num_ge_bad", "num", "ge", ["10", "2x"], [10, 15, 5], "vo")
 NUM_LE_NEG = Kind("num_le_neg", "num", "le", ["-5", "010"], [-5, 0, 10], "vo")
 NUM_EQ_BAD = Kind("num_eq_bad", "num", "eq", ["ten", "10"], [10, 0, 20], "vo")
+NUM_GE_HALF = Kind("num_ge_half", "num2", "ge", ["10", "20"], [10.5, 9.5, 20.0], "vo")
+NUM_LE_HALF = Kind("num_le_half", "num2", "le", ["10", "20"], [10.5, 19.5, 2.5], "lazy")
+NUM_IN = Kind("num_in", "numset", "contains", ["10", "20"], [[10, 15], [10, 20], []], "vo")
 BOOL = Kind("bool", "bool", "eq", ["yes", "no"], [True, False, True], "vo")
 BOOL2 = Kind("bool2", "bool", "eq", ["True", "OFF"], [False, True, False], "lazy")
 BOOL_BAD = Kind("bool_bad", "bool", "eq", ["on", "maybe"], [True, False, False], "vo")
@@ -113,6 +120,8 @@ CONFIGS = [
     Cfg("comp_atvp_lazyvo", pk="comp", mpk=("atvp", "atvp"), mem=(1, 2), k1=STR_LAZY, k2=NUM_LE, cats=("os", "temp.max", "zz")),
     Cfg("comp_atvp_callable", pk="comp", mpk=("dict", "atvp"), mem=(2, 1), k1=STR_CALL, k2=STR_LAZY),
     Cfg("vo_num_ge_le", k1=NUM_GE, k2=NUM_LE, cats=("temp.min_value", "temp.max_value", "temp.value")),
+    Cfg("vo_num_half", k1=NUM_GE_HALF, k2=NUM_LE_HALF, cats=("temp.min_value", "temp.max_value", "temp.value")),
+    Cfg("vo_num_in_half", k1=NUM_IN, k2=NUM_GE_HALF, pk="atvp", cats=("port", "load", "zz")),
     Cfg("vo_num_bad_bool", k1=NUM_GE_BAD, k2=BOOL, cats=("level", "py3", "zz")),
     Cfg("vo_bool_bad_set", k1=BOOL_BAD, k2=SET, cats=("flag", "pay", "zz")),
     Cfg("vo_ne_lazy", k1=STR_NE, k2=STR_LAZY, sep=":"),
